@@ -105,13 +105,12 @@ TabOf(S, t) == S.tables[CHOOSE i \in 1..Len(S.tables) : S.tables[i].id = t]
 IsFormula(col) == col.body[1] # "none"
 \* the name map the document is built with
 Names0(S) == [e \in Entities(S) |-> IF IsTable(S, e) THEN TabOf(S, e).name ELSE S.cols[e].name]
-NameOf(N, e) == IF e \in DOMAIN N THEN N[e] ELSE "<gone>"
 
 ----------------------------------------------------------------------------
 \* Text of a tree under a name map: tokens <<text, entity mentioned or "">>
 
 L(s)    == << <<s, "">> >>
-M(N, e) == << <<NameOf(N, e), e>> >>
+M(N, e) == << <<N[e], e>> >>          \* N must name every entity the tree mentions
 
 RECURSIVE Attrs(_, _)
 Attrs(N, ch) == IF Len(ch) = 0 THEN <<>> ELSE L(".") \o M(N, ch[1]) \o Attrs(N, Tail(ch))
@@ -169,7 +168,7 @@ ColToks(N, col) ==
   ELSE Toks(N, col.body) \o (IF col.cmt = "" THEN <<>> ELSE L("  # " \o col.cmt))
 FormulaText(N, col) == Cat(ColToks(N, col))
 
-Mentions(col) == {t[2] : t \in SeqRange(ColToks([x \in {} |-> ""], col))} \ {""}
+Mentions(S, col) == {t[2] : t \in SeqRange(ColToks(Names0(S), col))} \ {""}
 
 \* "only those name tokens change": a theorem of the token model (checked in MC_Rename)
 OnlyMentionsChange(S, Na, Nb, changed) ==
@@ -305,7 +304,8 @@ AppliedOk(in, o) ==
 
 BadVals(va, vb) == {e \in DOMAIN va : e \notin DOMAIN vb \/ vb[e] # va[e]} \cup (DOMAIN vb \ DOMAIN va)
 BadTexts(in, texts, N, texts0) ==
-  {c \in ColIds(in.sch) : c \notin DOMAIN texts \/ texts[c] # FormulaText(N, in.sch.cols[c])}
+  (IF ~(Entities(in.sch) \subseteq DOMAIN N) THEN {c \in ColIds(in.sch) : IsFormula(in.sch.cols[c])}
+   ELSE {c \in ColIds(in.sch) : c \notin DOMAIN texts \/ texts[c] # FormulaText(N, in.sch.cols[c])})
   \cup {e \in DOMAIN texts0 \ ColIds(in.sch) : e \notin DOMAIN texts \/ texts[e] # texts0[e]}
 
 Unchanged1(o) ==
